@@ -129,6 +129,15 @@ Proof.
       match type of Hp with (if ?c then _ else _) = _ => destruct c end; [discriminate|].
       inversion Hp; subst. apply IHs1 in E1. exact E1.
     + intros st0 [r Jr] Hr. eapply IHs2; eauto.
+  - (* SFor *)
+    destruct (infer P true (decl st) fr e) as [xe| |]; cbn [bind] in H; try discriminate.
+    destruct (iter_item_ty P rng (fst xe)) as [it| |]; cbn [bind] in H; try discriminate.
+    eapply loop_tail_ext; [| |exact H].
+    + intros d0 V d' E J0 em Hp. cbv beta in Hp.
+      destruct (bind_var P d0 V x it) as [[d1 V1]| |] eqn:Bv; cbn [bind fst snd] in Hp; try discriminate.
+      destruct (check_stmt P true ret _ s1) as [[r1 J1]| |] eqn:E1; cbn [bind] in Hp; try discriminate.
+      inversion Hp; subst. apply IHs1 in E1. eapply decl_ext_trans; [eapply bind_var_ext; eauto | exact E1].
+    + intros st0 [r Jr] Hr. eapply IHs2; eauto.
   - (* SRaise *)
     match type of H with bind ?m _ = _ => destruct m as [xe| |] end; cbn [bind] in H; try discriminate.
     destruct (subclass P c exc_id); inversion H; subst. apply decl_ext_refl.
@@ -149,6 +158,15 @@ Proof.
       - inversion Ebv; subst. apply decl_ext_refl. }
     eapply decl_ext_trans; [exact Eb|]. eapply decl_ext_trans; [eassumption|].
     eapply decl_ext_trans; eauto.
+  - (* SFinally *)
+    destruct (check_stmt P true ret st s1) as [[rb Jb]| |] eqn:Eb; cbn [bind] in H; try discriminate.
+    match type of H with bind ?m _ = _ => destruct m as [[ra Ja]| |] eqn:Ea end; cbn [bind] in H; try discriminate.
+    match type of H with bind ?m _ = _ => destruct m as [[rn Jn]| |] eqn:En end; cbn [bind] in H; try discriminate.
+    simpl in H.
+    match type of H with context [if ?c then Unsup _ else _] => destruct c end; [discriminate|].
+    inversion H; subst. cbn [fst] in *.
+    apply IHs1 in Eb. apply IHs2 in Ea. apply IHs2 in En. cbn [decl fst] in *.
+    eapply decl_ext_trans; [exact Eb|]. eapply decl_ext_trans; eauto.
   - (* SReturn *)
     destruct (infer P true (decl st) fr e) as [xe| |]; simpl in H; try discriminate.
     destruct (is_subtype P (fst xe) ret); [inversion H; subst; apply decl_ext_refl | discriminate].
@@ -429,6 +447,99 @@ Proof.
     subst st'. unfold env_ok; cbn [decl cur]. rewrite Emg. split; assumption.
 Qed.
 
+Lemma mems_in : forall vs ts w, mems P vs ts -> In w vs -> exists t, In t ts /\ mem P w t.
+Proof.
+  intros vs ts w H. induction H; intro Hin; [destruct Hin|]. destruct Hin as [->|Hin].
+  - exists t. split; [left; reflexivity | assumption].
+  - destruct (IHmems Hin) as [t0 [A B]]. exists t0. split; [right; exact A | exact B].
+Qed.
+
+Lemma iter_values_ok : forall rng te it v, iter_item_ty P rng te = Ok it -> mem P v te ->
+  exists vs, iter_values rng v = Val vs /\ forall w, In w vs -> mem P w it.
+Proof.
+  intros rng te it v H Hv. unfold iter_item_ty in H. unfold iter_values. destruct rng.
+  - destruct (is_subtype P te TInt) eqn:Es; [|discriminate]. inversion H; subst.
+    pose proof (subtype_sound P Htrans _ _ Es _ Hv) as Hi.
+    assert (exists n, as_int v = Some n) by (inversion Hi; subst; simpl; eauto).
+    destruct H0 as [n ->]. eexists; split; [reflexivity|].
+    intros w Hin. apply in_map_iff in Hin. destruct Hin as [z [<- _]]. constructor.
+  - destruct te as [| | | | | |ts]; try discriminate. destruct ts as [|t0 ts]; [discriminate|].
+    assert (Hit : it = mk_union P (t0 :: ts)) by (destruct (mk_union P (t0 :: ts)); inversion H; reflexivity).
+    inversion Hv as [ | | | | | |vs0 ts0 Hms| ]; subst. eexists; split; [reflexivity|].
+    intros w Hin. destruct (mems_in _ _ _ Hms Hin) as [t [A B]]. eapply mk_union_sound; eauto.
+Qed.
+
+Lemma for_sound : forall f x b els ret fr d' V' it d1 V1 r1 J1 ste Je st' Jout,
+  stmt_ok_at P f ->
+  bind_var P d' V' x it = Ok (d1, V1) ->
+  check_stmt P true ret {| decl := d1; cur := Some V1 |} b = Ok (r1, J1) ->
+  let o2 := Some V' :: jump_opts (cnt J1) ++ [cur r1] in
+  let o := cur ste :: jump_opts (brk J1) in
+  merge_cert P (merge P V' o2) o2 = true ->
+  stable P V' (unwrap_frame (merge P V' o2)) = true -> decls_eqb P (decl r1) d' = true ->
+  check_stmt P true ret {| decl := d'; cur := Some V' |} els = Ok (ste, Je) ->
+  merge_cert P (merge P fr o) o = true ->
+  st' = {| decl := decl ste; cur := merge P fr o |} -> In V1 (exc Jout) -> incl (exc J1) (exc Jout) -> jincl Je Jout ->
+  forall vs, (forall w, In w vs -> mem P w it) ->
+  forall en0 en1, env_decl_ok P en1 d' -> env_frame_ok P en1 V' -> covered P en0 en1 Jout ->
+    stmt_result_ok P ret en0 st' Jout (for_go (exec P f) x b els vs en1).
+Proof.
+  intros f x b els ret fr d' V' it d1 V1 r1 J1 ste Je st' Jout SO Hbv Hb o2 o Cert2 Hst Heq He Cm Est HV1 HJ1 HJe.
+  assert (Hde : decl_ext d' (decl ste)) by (apply check_decl_ext in He; exact He).
+  induction vs as [|w r IHr]; intros Hvs en0 en1 Hd Hf Hcov; simpl.
+  - (* no more items: else clause *)
+    eapply result_shift; [exact Hcov|].
+    pose proof (SO els ret _ ste Je en1 He (conj Hd Hf)) as Re.
+    eapply result_weaken; [exact Re | | subst st'; apply decl_ext_refl | exact HJe].
+    intros en' _ [Hd2 Hc2]. destruct (cur ste) as [fe|] eqn:Ece; [|contradiction].
+    destruct (merge_sound en' fr o fe Cm (or_introl eq_refl) Hc2) as [mg [Emg Hmg]].
+    subst st'. unfold env_ok; cbn [decl cur]. rewrite Emg. split; assumption.
+  - destruct (bind_var_sound en1 d' V' x it d1 V1 w Hbv Hd Hf (Hvs w (or_introl eq_refl))) as [Hd1 Hf1].
+    assert (Hcu : covered P en0 (update en1 x w) Jout) by (right; exists V1; split; assumption).
+    pose proof (SO b ret _ r1 J1 _ Hb (conj Hd1 Hf1)) as Rb.
+    eapply result_shift; [exact Hcu|].
+    destruct (exec P f (update en1 x w) b) as [[en2|en2 v|en2|en2|en2 v]|xx|]; simpl in Rb |- *; [| | | | |exact Rb|exact I].
+    + destruct Rb as [[Hd2 Hc2] Hcv]. destruct (cur r1) as [f1|] eqn:Er1; [|contradiction].
+      assert (Hin : In (Some f1) o2) by (unfold o2; right; apply in_or_app; right; left; reflexivity).
+      destruct (merge_sound en2 V' o2 f1 Cert2 Hin Hc2) as [v2 [Ev2 Hv2]].
+      rewrite Ev2 in Hst. simpl in Hst.
+      eapply result_shift; [eapply covered_exc; [exact Hcv | exact HJ1]|].
+      apply IHr; [intros w0 Hw0; apply Hvs; right; exact Hw0 | eapply env_decl_eqb; eauto | eapply stable_sound; eauto | left; reflexivity].
+    + destruct Rb as [Mv [Hd2 Hcv]]. split; [exact Mv|]. split.
+      * subst st'. simpl. eapply env_decl_ext; [eapply env_decl_eqb; eauto | exact Hde].
+      * eapply covered_exc; eauto.
+    + destruct Rb as [Hd2 [Hcv [fb [Hib Hfb]]]].
+      assert (Hin : In (Some fb) o) by (unfold o; right; apply in_jump_opts; exact Hib).
+      destruct (merge_sound en2 fr o fb Cm Hin Hfb) as [mg [Emg Hmg]].
+      split.
+      * subst st'. unfold env_ok; cbn [decl cur]. rewrite Emg. split; [|exact Hmg].
+        eapply env_decl_ext; [eapply env_decl_eqb; eauto | exact Hde].
+      * eapply covered_exc; eauto.
+    + destruct Rb as [Hd2 [Hcv [fc [Hic Hfc]]]].
+      assert (Hin : In (Some fc) o2) by (unfold o2; right; apply in_or_app; left; apply in_jump_opts; exact Hic).
+      destruct (merge_sound en2 V' o2 fc Cert2 Hin Hfc) as [v2 [Ev2 Hv2]].
+      rewrite Ev2 in Hst. simpl in Hst.
+      eapply result_shift; [eapply covered_exc; [exact Hcv | exact HJ1]|].
+      apply IHr; [intros w0 Hw0; apply Hvs; right; exact Hw0 | eapply env_decl_eqb; eauto | eapply stable_sound; eauto | left; reflexivity].
+    + destruct Rb as [Mw [Hd2 Hcv]]. split; [exact Mw|]. split.
+      * subst st'. simpl. eapply env_decl_ext; [eapply env_decl_eqb; eauto | exact Hde].
+      * eapply covered_exc; eauto.
+Qed.
+
+Lemma finally_abrupt : forall ret en en1 st' J ra Ja (r : sres) o2,
+  match r with Returned _ v => mem P v ret | Raised _ w => mem P w (TInst exc_id) | _ => False end ->
+  covered P en en1 J -> stmt_result_ok P ret en1 ra Ja o2 -> decl_ext (decl ra) (decl st') -> jincl Ja J ->
+  stmt_result_ok P ret en st' J
+    (obind o2 (fun r2 => match r2 with Normal en2 => Val (set_env r en2) | _ => Val r2 end)).
+Proof.
+  intros ret en en1 st' J ra Ja r o2 Hp Hcov Ra Hde Hj.
+  destruct o2 as [[en2|en2 v|en2|en2|en2 v]|xx|]; cbn [obind];
+    try (eapply result_shift; [exact Hcov|]; eapply result_weaken; [exact Ra | intros ? E; discriminate E | exact Hde | exact Hj]; fail).
+  - destruct Ra as [[Hd2 _] Hcv].
+    assert (C2 : covered P en en2 J) by (eapply covered_trans; [exact Hcov | eapply covered_incl; eauto]).
+    destruct r; simpl in *; try contradiction; (split; [exact Hp|]; split; [eapply env_decl_ext; eauto | exact C2]).
+Qed.
+
 Lemma normal_ok : forall ret en st' J, env_ok P en st' -> stmt_result_ok P ret en st' J (Val (Normal en)).
 Proof. intros. simpl. split; [assumption | left; reflexivity]. Qed.
 
@@ -516,7 +627,7 @@ Proof.
     unfold loop_pass in Epass.
     destruct (infer P true d' V' c) as [[tc [im emx]]| |] eqn:Einf; cbn [bind fst snd] in Epass; try discriminate.
     destruct (check_stmt P true ret _ s1) as [[r1 Jb]| |] eqn:Eb; cbn [bind fst snd] in Epass; try discriminate.
-    match type of Epass with context [if ?cnd then Unsup else _] => destruct cnd eqn:Ec1 end; cbn [bind] in Epass; [discriminate|].
+    match type of Epass with context [if ?cnd then Unsup _ else _] => destruct cnd eqn:Ec1 end; cbn [bind] in Epass; [discriminate|].
     match type of Epass with (if ?cnd then _ else _) = _ => destruct cnd eqn:Ec2 end; [discriminate|].
     inversion Epass; subst. clear Epass.
     simpl in Ec1, Ec2. apply negb_false_iff in Ec1. apply negb_false_iff in Ec2.
@@ -525,7 +636,7 @@ Proof.
       destruct (infer P true d0 V0 c) as [xc| |]; cbn [bind] in Hp; try discriminate.
       match type of Hp with bind ?m _ = _ => destruct m as [[rr Jr]| |] eqn:Er end; cbn [bind] in Hp; try discriminate.
       simpl in Hp.
-      match type of Hp with context [if ?cnd then Unsup else _] => destruct cnd end; [discriminate|].
+      match type of Hp with context [if ?cnd then Unsup _ else _] => destruct cnd end; [discriminate|].
       inversion Hp; subst. apply check_decl_ext in Er. exact Er. }
     match goal with |- stmt_result_ok ?x1 ?x2 ?x3 ?x4 ?x5 _ =>
       change (stmt_result_ok x1 x2 x3 x4 x5 (exec P (S f) en (SWhile c s1 s2))) end.
@@ -533,7 +644,37 @@ Proof.
       [simpl; apply incl_appl; apply incl_refl | | apply le_n | eapply env_decl_ext; eauto
        | eapply view_le_sound; eauto | left; reflexivity].
     repeat split; simpl; try apply incl_refl. apply incl_appr. apply incl_refl.
-  - (* SFor *) discriminate.
+  - (* SFor *)
+    destruct (infer P true (decl st) fr e) as [[te m]| |] eqn:Ei; cbn [bind fst] in Hc; try discriminate.
+    destruct (iter_item_ty P rng te) as [it| |] eqn:Eit0; cbn [bind] in Hc; try discriminate.
+    unfold check_loop_tail in Hc.
+    match type of Hc with bind ?m _ = _ => destruct m as [[[[[d' V'] Jt] em] aps]| |] eqn:Eit end; cbn [bind] in Hc; try discriminate.
+    match type of Hc with bind ?m _ = _ => destruct m as [[[[[d2 V2] J2] em2] ch2]| |] eqn:Epass end; cbn [bind] in Hc; try discriminate.
+    match type of Hc with bind ?m _ = _ => destruct m as [[ste Je]| |] eqn:Ee end; cbn [bind] in Hc; try discriminate.
+    match type of Hc with (if ?cnd then _ else _) = _ => destruct cnd eqn:Ecert end; [|discriminate].
+    inversion Hc; subst. clear Hc.
+    apply andb_prop in Ecert. destruct Ecert as [Ecert Cm]. apply andb_prop in Ecert. destruct Ecert as [Ecert Cv].
+    apply andb_prop in Ecert. destruct Ecert as [Cd Cs].
+    unfold loop_pass in Epass.
+    destruct (bind_var P d' V' x it) as [[d1 V1]| |] eqn:Bv; cbn [bind fst snd] in Epass; try discriminate.
+    match type of Epass with bind (bind ?m _) _ = _ => destruct m as [[r1 J1]| |] eqn:Eb end; cbn [bind fst snd] in Epass; try discriminate.
+    match type of Epass with (if ?cnd then _ else _) = _ => destruct cnd eqn:Ec2 end; [discriminate|].
+    inversion Epass; subst. clear Epass.
+    simpl in Ec2. apply negb_false_iff in Ec2. simpl in Cs, Cm.
+    assert (Hext : decl_ext (decl st) d').
+    { eapply loop_iter_ext; [|exact Eit]. intros d0 V0 d3 E0 J0 em0 Hp. cbv beta in Hp.
+      destruct (bind_var P d0 V0 x it) as [[d4 V4]| |] eqn:Bv0; cbn [bind fst snd] in Hp; try discriminate.
+      match type of Hp with bind ?m _ = _ => destruct m as [[rr Jr]| |] eqn:Er end; cbn [bind] in Hp; try discriminate.
+      inversion Hp; subst. apply check_decl_ext in Er. eapply decl_ext_trans; [eapply bind_var_ext; eauto | exact Er]. }
+    assert (Hde : decl_ext d' (decl ste)) by (apply check_decl_ext in Ee; exact Ee).
+    eapply slift_ok with (Q := fun v => mem P v te /\ maps_ok P en v m);
+      [|simpl; eapply env_decl_ext; [exact Hd | eapply decl_ext_trans; eauto]|].
+    { pose proof (EO e _ _ _ _ en Ei Hd Hfr) as Re. destruct (eval P f en e); exact Re. }
+    intros v [Mv _]. destruct (iter_values_ok _ _ _ _ Eit0 Mv) as [vs [Evs Hvs]]. rewrite Evs. cbn [obind].
+    eapply (for_sound f x s1 s2 ret fr d' V' it d1 V1 r1 J1 ste Je _ _ SO Bv Eb Ec2 Cs Cd Ee Cm eq_refl);
+      [simpl; left; reflexivity | simpl; apply incl_tl; apply incl_appl; apply incl_refl | | exact Hvs
+       | eapply env_decl_ext; eauto | eapply view_le_sound; eauto | left; reflexivity].
+    repeat split; simpl; try apply incl_refl. apply incl_tl. apply incl_appr. apply incl_refl.
   - (* SBreak *)
     inversion Hc; subst. simpl. split; [exact Hd|]. split; [left; reflexivity|]. exists fr. split; [left; reflexivity | exact Hfr].
   - (* SContinue *)
@@ -665,7 +806,58 @@ Proof.
                 | right; exists f0; split; [apply IJhe; exact Hi | try apply frame_ok_remove; exact Hf0]]]).
       * eapply result_weaken; [exact Rb | intros ? E; discriminate E | eapply decl_ext_trans; [exact Xv|eapply decl_ext_trans; eauto] | exact IJb].
     + simpl in Rb. destruct (Nat.eqb c exc_id && negb (type_failure xx)); [reflexivity | exact Rb].
-  - (* SFinally *) discriminate.
+  - (* SFinally *)
+    match type of Hc with bind ?m _ = _ => destruct m as [[rb Jb]| |] eqn:Eb end; cbn [bind fst snd] in Hc; try discriminate.
+    match type of Hc with bind ?m _ = _ => destruct m as [[ra Ja]| |] eqn:Ea end; cbn [bind fst snd] in Hc; try discriminate.
+    match type of Hc with bind ?m _ = _ => destruct m as [[rn Jn]| |] eqn:En end; cbn [bind fst snd] in Hc; try discriminate.
+    match type of Hc with (if ?cnd then _ else _) = _ => destruct cnd eqn:Ecert end; [discriminate|].
+    inversion Hc; subst. clear Hc.
+    simpl in Ecert. apply negb_false_iff in Ecert. apply andb_prop in Ecert. destruct Ecert as [Ecert Cnb].
+    apply andb_prop in Ecert. destruct Ecert as [Ecert Cmn]. apply andb_prop in Ecert. destruct Ecert as [Cmh Cma].
+    assert (Nb : brk Jb = [] /\ cnt Jb = []) by (destruct (brk Jb); destruct (cnt Jb); try discriminate; split; reflexivity).
+    destruct Nb as [Nb Nc].
+    assert (Xb : decl_ext (decl st) (decl rb)) by (apply check_decl_ext in Eb; exact Eb).
+    assert (Xa : decl_ext (decl rb) (decl ra)) by (apply check_decl_ext in Ea; exact Ea).
+    assert (Xn : decl_ext (decl ra) (decl st')) by (apply check_decl_ext in En; exact En).
+    match goal with |- stmt_result_ok _ _ _ _ ?JJ _ => set (Jout := JJ) end.
+    assert (IJb : jincl Jb Jout) by (repeat split; simpl; apply incl_appl; apply incl_refl).
+    assert (IJa : jincl Ja Jout) by (repeat split; simpl; apply incl_appr; apply incl_appl; apply incl_refl).
+    assert (IJn : jincl Jn Jout) by (repeat split; simpl; apply incl_appr; apply incl_appr; apply incl_refl).
+    pose proof (SO s1 ret st rb Jb en Eb Hst0) as Rb.
+    destruct (exec P f en s1) as [r|xx|]; [| |exact I].
+    + destruct r as [en1|en1 v|en1|en1|en1 v].
+      * (* the body fell through: finally from the normal-exit frame *)
+        destruct Rb as [[Hd1 Hc1] Hcv]. destruct (cur rb) as [f1|] eqn:Er1; [|contradiction].
+        destruct (merge_sound en1 fr _ f1 Cmn (or_introl eq_refl) Hc1) as [mn [Emn Hmn]].
+        rewrite Emn in En.
+        pose proof (SO s2 ret _ st' Jn en1 En (conj (env_decl_ext _ _ _ Hd1 Xa) Hmn)) as Rn.
+        cbn [env_of].
+        eapply result_shift; [eapply covered_incl; [exact Hcv | exact IJb]|].
+        destruct (exec P f en1 s2) as [[en2|en2 v|en2|en2|en2 v]|xx|]; cbn [obind set_env];
+          try (eapply result_weaken; [exact Rn | auto | apply decl_ext_refl | exact IJn]); try exact Rn; exact I.
+      * (* return inside the protected block *)
+        destruct Rb as [Mv [Hd1 Hcv]].
+        assert (Hma : exists maf, merge P fr (merge P fr (Some fr :: jump_opts (exc Jb)) :: Some fr :: jump_opts (exc Jb)) = Some maf
+                                  /\ env_frame_ok P en1 maf).
+        { destruct Hcv as [->|[f0 [Hi Hf0]]].
+          - eapply merge_sound; [exact Cma | right; left; reflexivity | exact Hfr].
+          - eapply merge_sound; [exact Cma | right; right; apply in_jump_opts; exact Hi | exact Hf0]. }
+        destruct Hma as [maf [Ema Hmaf]]. rewrite Ema in Ea.
+        pose proof (SO s2 ret _ ra Ja en1 Ea (conj Hd1 Hmaf)) as Ra. cbn [env_of].
+        eapply finally_abrupt; [exact Mv | eapply covered_incl; [exact Hcv | exact IJb] | exact Ra | exact Xn | exact IJa].
+      * destruct Rb as [_ [_ [fb [Hib _]]]]. rewrite Nb in Hib. destruct Hib.
+      * destruct Rb as [_ [_ [fb [Hib _]]]]. rewrite Nc in Hib. destruct Hib.
+      * (* an exception leaves the protected block *)
+        destruct Rb as [Mv [Hd1 Hcv]].
+        assert (Hma : exists maf, merge P fr (merge P fr (Some fr :: jump_opts (exc Jb)) :: Some fr :: jump_opts (exc Jb)) = Some maf
+                                  /\ env_frame_ok P en1 maf).
+        { destruct Hcv as [->|[f0 [Hi Hf0]]].
+          - eapply merge_sound; [exact Cma | right; left; reflexivity | exact Hfr].
+          - eapply merge_sound; [exact Cma | right; right; apply in_jump_opts; exact Hi | exact Hf0]. }
+        destruct Hma as [maf [Ema Hmaf]]. rewrite Ema in Ea.
+        pose proof (SO s2 ret _ ra Ja en1 Ea (conj Hd1 Hmaf)) as Ra. cbn [env_of].
+        eapply finally_abrupt; [exact Mv | eapply covered_incl; [exact Hcv | exact IJb] | exact Ra | exact Xn | exact IJa].
+    + destruct xx; simpl in Rb |- *; try discriminate; reflexivity.
   - (* SReturn *)
     destruct (infer P true (decl st) fr e) as [[te m]| |] eqn:Ei; simpl in Hc; try discriminate.
     destruct (is_subtype P te ret) eqn:Es; [|discriminate]. inversion Hc; subst. clear Hc.
